@@ -496,14 +496,22 @@ type copyResult struct {
 
 func blobserverEnumerator(ctx context.Context, src blobserver.BlobEnumerator) func(chan<- blob.SizedRef, <-chan struct{}) error {
 	return func(dst chan<- blob.SizedRef, intr <-chan struct{}) error {
-		return blobserver.EnumerateAll(ctx, src, func(sb blob.SizedRef) error {
+		// Like the other enumeration sources, tell runSync that there is
+		// nothing more to come.
+		defer close(dst)
+		errInterrupted := errors.New("interrupted")
+		err := blobserver.EnumerateAll(ctx, src, func(sb blob.SizedRef) error {
 			select {
 			case dst <- sb:
 			case <-intr:
-				return errors.New("interrupted")
+				return errInterrupted
 			}
 			return nil
 		})
+		if err == errInterrupted {
+			return nil
+		}
+		return err
 	}
 }
 
@@ -563,7 +571,6 @@ func (sh *SyncHandler) runSync(syncType string, enumSrc func(chan<- blob.SizedRe
 	enumch := make(chan blob.SizedRef, 8)
 	errch := make(chan error, 1)
 	intr := make(chan struct{})
-	defer close(intr)
 	go func() { errch <- enumSrc(enumch, intr) }()
 
 	nCopied := 0
@@ -584,6 +591,8 @@ FeedWork:
 			break FeedWork
 		}
 	}
+	// Stop an enumeration that still has blobs to send: we wait for it below.
+	close(intr)
 	close(workch)
 	for i := 0; i < toCopy; i++ {
 		sh.setStatusf("Copying blobs")
